@@ -340,6 +340,10 @@ impl Engine for StackEngine {
         if let Some(p) = &probe {
             if !matches!(p, Ok(200)) {
                 rep.violate("C09/tls-probe-not-served", desc.clone());
+                // the probe is another connection with its own server name (example.com) naming that host
+                if c.mode % 4 == 0 && server_alive {
+                    rep.violate("C20/fullstack-other-connection-rejected", format!("a second TLS connection with server name and Host example.com was not served after the first one: {desc}"));
+                }
             }
         }
         match c.mode % 4 {
